@@ -1280,7 +1280,15 @@ namespace
     {
         auto arr = left.data<d_array>();
         auto r = right.data<d_array>();
-        arr->insert(arr->end(), r->begin(), r->end());
+        auto oldsize = arr->size();
+        // copy first: right may be the very same array (_a append _a)
+        std::vector<value> appended(r->begin(), r->end());
+        arr->insert(arr->end(), appended.begin(), appended.end());
+        if (!arr->recursion_test())
+        { // _a append [_a] would make the array contain itself: refused, array unchanged
+            arr->resize(oldsize);
+            runtime.__logmsg(err::ArrayRecursion(runtime.context_active().current_frame().diag_info_from_position()));
+        }
         return {};
     }
     value arrayintersect_array_array(runtime& runtime, value::cref left, value::cref right)
